@@ -165,17 +165,17 @@ def r_alias(A, ctx, scope, rule="R-ALIAS"):
             # ... and the name bound to the caller's array is never rebound inside the budget
             # loop (`w, Xw = w_acc, Xw_acc` returns the right coefficients but the caller's
             # buffers stop following the iterate)
-            if ok and sf.loop is not None:
+            if ok and p in mut:
                 local = a.targets[0].id if isinstance(a.targets[0], ast.Name) else None
-                for st in ast.walk(sf.loop):
-                    if not isinstance(st, ast.Assign):
+                for st in ast.walk(f.node):
+                    if not isinstance(st, ast.Assign) or st is a or getattr(st, "lineno", 0) <= a.lineno:
                         continue
                     for t in st.targets:
                         names = [x.id for x in (t.elts if isinstance(t, ast.Tuple) else [t]) if isinstance(x, ast.Name)]
                         if local in names:
                             n += 1
                             ctx.ob(rule, f"{f.fq}::rebind::{local}", False,
-                                   what=f"`{norm_src(st)[:70]}` rebinds `{local}` inside the iteration loop: "
+                                   what=f"`{norm_src(st)[:70]}` rebinds `{local}` after it was bound to the caller's array: "
                                         f"the solver works in place on the caller's `{p}` (pair (w, Xw) handed "
                                         "over by path() and warm starts); after this statement the caller's "
                                         "buffer no longer follows the iterate", loc=loc(f, st))
